@@ -20,7 +20,9 @@ VARIABLES shape, idx, stage, np, conv, eager, convIdeal, eagerIdeal, convWhy, ea
 vars == <<shape, idx, stage, np, conv, eager, convIdeal, eagerIdeal, convWhy, eagerWhy>>
 
 BIG == 1000000      \* stands for maxint = 2^63-1 (TLC integers are 32-bit); -BIG for minint
-AllDevs == {"slice_neg_clamp", "conv_axis_shift", "eager_axis_shift", "conv_identity_crash"}
+\* on the pinned tree also "eager_axis_shift", "conv_identity_crash" and the static part of "conv_axis_shift" were real;
+\* they are fixed in /repo ("fix: renumber Gather axes ..."), so the implementation model runs without them
+AllDevs == {"slice_neg_clamp", "conv_axis_shift"}
 
 -----------------------------------------------------------------------------
 (* index components *)
@@ -102,17 +104,18 @@ SliceBy(t, specs, devs) ==
                       ELSE <<0, 1, t.shape[i]>>]
        IN ApplyPlan(t, plan)
 
-\* Gathers applied one after another; `removed` = original 1-based axes already eliminated.
-\* pending: sequence of <<axis(1-based original), index tensor>>.  Without the *_axis_shift
-\* deviation the axis is renumbered by the eliminated axes in front of it.
-RECURSIVE GatherSeq(_, _, _, _)
-GatherSeq(t, pending, removed, shift) ==
+\* Gathers applied one after another.  pending: sequence of <<axis(1-based original), index tensor>>.
+\* static = original axes removed by constant scalar indices (Squeeze): the code renumbers for them.
+\* dyn = axes eliminated by an earlier Gather with a 0-d index tensor, whose rank the converter does
+\* not know: with deviation "conv_axis_shift" (shiftDyn) the axis is NOT renumbered for those.
+RECURSIVE GatherSeq(_, _, _, _, _)
+GatherSeq(t, pending, static, dyn, shiftDyn) ==
   IF pending = <<>> \/ IsErr(t) THEN t
   ELSE LET a == Head(pending)[1]
            ind == Head(pending)[2]
-           adj == IF shift THEN 0 ELSE Cardinality({x \in removed : x < a})
+           adj == Cardinality({x \in static : x < a}) + (IF shiftDyn THEN 0 ELSE Cardinality({x \in dyn : x < a}))
            res == Gather(t, ind, (a - 1) - adj)
-       IN GatherSeq(res, Tail(pending), IF Rank(ind) = 0 THEN removed \cup {a} ELSE removed, shift)
+       IN GatherSeq(res, Tail(pending), static, IF Rank(ind) = 0 THEN dyn \cup {a} ELSE dyn, shiftDyn)
 
 -----------------------------------------------------------------------------
 (* converter.py:_translate_subscript_expr *)
@@ -138,10 +141,10 @@ ConvLower(t, ix, devs) ==
                 squeezed == IF scalarAx = {} THEN sliced
                             ELSE Squeeze(sliced, [j \in 1..Cardinality(scalarAx) |-> SortedSeq(scalarAx)[j] - 1])
                 pend == [j \in 1..Cardinality(nonscAx) |-> <<SortedSeq(nonscAx)[j], IndOf(SortedSeq(nonscAx)[j])>>]
-            IN GatherSeq(squeezed, pend, scalarAx, shift)
+            IN GatherSeq(squeezed, pend, scalarAx, {}, shift)
        ELSE LET order == SortedSeq(nonscAx) \o SortedSeq(scalarAx)  \* the single scalar goes last
                 pend == [j \in 1..Len(order) |-> <<order[j], IndOf(order[j])>>]
-            IN GatherSeq(t, pend, {}, shift)
+            IN GatherSeq(t, pend, {}, {}, shift)
 
 (* tensor.py:Tensor.__getitem__ *)
 EagerLower(t, ix, devs) ==
@@ -160,14 +163,14 @@ EagerLower(t, ix, devs) ==
      ELSE IF slicedAx \cup scalarAx \cup nonscAx = {} THEN t
      ELSE IF slicedAx = {} /\ Cardinality(scalarAx) = 1
        THEN LET a == CHOOSE i \in scalarAx : TRUE
-            IN GatherSeq(Gather(t, Scalar("i64", ix[a].v), a - 1), pendTv, {a}, shift)
+            IN GatherSeq(Gather(t, Scalar("i64", ix[a].v), a - 1), pendTv, IF shift THEN {} ELSE {a}, {}, FALSE)
      ELSE IF slicedAx \cup scalarAx # {}
        THEN LET axs == SortedSeq(slicedAx) \o SortedSeq(scalarAx)
                 sliced == SliceBy(t, [j \in 1..Len(axs) |-> SpecOf(axs[j])], devs)
                 squeezed == IF scalarAx = {} THEN sliced      \* np.squeeze: error unless the dim is 1
                             ELSE Squeeze(sliced, [j \in 1..Cardinality(scalarAx) |-> SortedSeq(scalarAx)[j] - 1])
-            IN GatherSeq(squeezed, pendTv, scalarAx, shift)
-     ELSE GatherSeq(t, pendTv, {}, shift)
+            IN GatherSeq(squeezed, pendTv, IF shift THEN {} ELSE scalarAx, {}, FALSE)
+     ELSE GatherSeq(t, pendTv, {}, {}, FALSE)
 
 -----------------------------------------------------------------------------
 X == Iota("i64", shape)
